@@ -192,7 +192,13 @@ def r10_6(cx):
                         good += 1
                     if e.kind == 'discr' and is_call(e.a, 'VecDeque::front') and v != ('in', frozenset([1])):
                         good += 1
-            ok = good == len(exits) and len(exits) == 2
+                    if v is False and e.strip().kind == 'call' and e.strip().op.endswith('is_some_and') and is_call(e.strip().args[0], 'VecDeque::front'):
+                        # while front().is_some_and(|a| a.count() == 0): leaving means None or count != 0
+                        from engine.woodlint.db import closure_predicate_facts
+                        pf = [as_relation(x) for x in closure_predicate_facts(prog, e)]
+                        if any(r and (r[0] == 'Eq' or r[0] == 'Le') and is_call(r[1], AN + '::count') and r[2].is_const_int(0) for r in pf):
+                            good += 1
+            ok = good == len(exits) and len(exits) in (1, 2)
     cx.check(ok, 'zero-count-anchors-popped', f, None, 'the trailing loop pops front anchors until one has count > 0 or none is left', fail_detail='zero-count anchors can stay at the front (their chunks are never released)')
     from . import c06, c05
     sub = cx.__class__(cx.prog, cx.profile, cx.prop)
